@@ -38,6 +38,7 @@ func runC12(r *Report) {
 		!r.Anchor("R1", "tor.Torrent.infoComplete", ic != nil) || !r.Anchor("R1", "tor.Torrent.Info", infoF != nil) || !r.Anchor("R1", "tor.Torrent.Hash", hashF != nil) || !r.Anchor("R1", "tor.Torrent.infoBitmap", ib != nil) {
 		return
 	}
+	atomicWrites(r, "R1", objNamed("tor", "infoComplete"), 1)
 	// ---- R1
 	for _, acc := range p.fieldAccesses(ic) {
 		if !acc.Write && !acc.Addr {
